@@ -132,9 +132,12 @@ CLAIMED = {
                  "loop contracts); the verdict loop returns true only if every entry equals entry 0 and false only with a subset that differs from entry 0. "
                  "(g) the sub-iteration loop of IterativeReconstruction::reconstruct presents every sub-iteration number from the start "
                  "to the last exactly once and in order to update_estimate (loop contract; early termination nondeterministic). "
+                 (h) the class invariant all of this rests on - 90-degree symmetry only with the 180-degree one and a number of views divisible by 4, "
+                 "180-degree symmetry only for an even number of views, TOF data only the z-shift - is established by the constructor "
+                 "(two statement kernels + lemma; float conditions nondeterministic). "
                  "All symmetry switches symbolic. Not decided: that an entry is the sum of its contributions (read from the single '+='), "
                  "that every update_estimate passes get_subset_num()'s value on (syntactic static fact only), other symmetry classes."),
-        "note": ("trusted: cbmc 6.11.0 + kissat; SYM_VALID as established by the constructor (read from source); view range [0,num_views), "
+        "note": ("trusted: cbmc 6.11.0 + kissat; view range [0,num_views), "
                  "symmetric segment range; randomly_permute_subset_order delivers a permutation (assumed); std::vector modelled by "
                  "bounded array / ghost counters; parametric: num_subsets swept as constants"),
     },
